@@ -342,6 +342,107 @@ def after_op_scenario(op, exhaust):
             pass
 
 
+def side_request_scenario(op, at):
+    """The peer sends an N-EVENT-REPORT request in the middle of its own C-GET (while answering sub-operation `at` of 3;
+    `op` = "get") or C-FIND (`op` = "find": before the second of 3 matches is due).  pynetdicom serves that request in
+    a thread of its own; the operation the reactor is serving must go on: every sub-operation, the final response, the
+    release, and every thread dead afterwards."""
+    from io import BytesIO
+
+    from harness import e2e
+    from pydicom.dataset import Dataset, FileMetaDataset
+    from pydicom.uid import ImplicitVRLittleEndian
+    from pynetdicom import AE, build_role, evt
+    from pynetdicom.dimse_primitives import N_EVENT_REPORT
+    from pynetdicom.dsutils import encode
+    from pynetdicom.sop_class import (
+        CTImageStorage as CT, PatientRootQueryRetrieveInformationModelGet as GET, StorageCommitmentPushModel as SC,
+    )
+
+    e2e.quiet()
+    N = 3
+    reports, stores = [], []
+
+    def inst(i):
+        ds = Dataset()
+        ds.SOPClassUID, ds.SOPInstanceUID, ds.PatientName = CT, f"1.2.3.{i}", "X"
+        ds.file_meta = FileMetaDataset()
+        ds.file_meta.TransferSyntaxUID = ImplicitVRLittleEndian
+        return ds
+
+    def on_get(event):
+        yield N
+        for i in range(N):
+            yield 0xFF00, inst(i)
+
+    def on_report(event):
+        reports.append(event.request.MessageID)
+        return 0x0000, None
+
+    srv_ae = AE(ae_title="SERVED")
+    srv_ae.add_supported_context(GET)
+    srv_ae.add_supported_context(CT, scu_role=True, scp_role=True)
+    srv_ae.add_supported_context(SC)
+    srv_ae.acse_timeout = srv_ae.dimse_timeout = srv_ae.network_timeout = 4 * T
+    srv = srv_ae.start_server(("127.0.0.1", 0), block=False,
+                              evt_handlers=[(evt.EVT_C_GET, on_get), (evt.EVT_N_EVENT_REPORT, on_report)])
+
+    def on_store(event):
+        stores.append(1)
+        if len(stores) == at:
+            a = event.assoc
+            req = N_EVENT_REPORT()
+            req.MessageID = 4242
+            req.AffectedSOPClassUID = SC
+            req.AffectedSOPInstanceUID = "1.2.840.10008.1.20.1.1"
+            req.EventTypeID = 1
+            info = Dataset()
+            info.TransactionUID = "1.2.3"
+            req.EventInformation = BytesIO(encode(info, True, True))
+            cx = next(c for c in a.accepted_contexts if c.abstract_syntax == SC)
+            a.dimse.send_msg(req, cx.context_id)
+            # this thread is the only reader of the requestor's message queue (its reactor is paused by send_c_get)
+            _, rsp = a.dimse.get_msg(block=True)
+            if type(rsp).__name__ != "N_EVENT_REPORT":
+                stores.append(f"unexpected {rsp!r}")
+            time.sleep(0.05)  # let the serving thread run to its end before the sub-operation is answered
+        return 0x0000
+
+    ae = AE()
+    ae.add_requested_context(GET)
+    ae.add_requested_context(CT)
+    ae.add_requested_context(SC)
+    ae.acse_timeout = ae.dimse_timeout = ae.network_timeout = 4 * T
+    out = {"role": "acceptor"}
+    t0 = time.monotonic()
+    try:
+        assoc = ae.associate("127.0.0.1", srv.socket.getsockname()[1], ext_neg=[build_role(CT, scp_role=True)],
+                             evt_handlers=[(evt.EVT_C_STORE, on_store)])
+        if not assoc.is_established:
+            return {"harness_error": "association not established"}
+        served = list(srv.active_associations)
+        q = Dataset()
+        q.QueryRetrieveLevel, q.PatientID = "PATIENT", "*"
+        t1 = time.monotonic()
+        out["statuses"] = [getattr(st, "Status", None) if st else None for st, _ in assoc.send_c_get(q, GET)]
+        out["call_took"] = time.monotonic() - t1
+        out["stores"], out["reports"] = list(stores), len(reports)
+        if assoc.is_established:
+            assoc.release()
+        limit = time.monotonic() + 3 * 4 * T + 1.5
+        threads = served + [a.dul for a in served]
+        while time.monotonic() < limit and any(t.is_alive() for t in threads):
+            time.sleep(0.02)
+        out["leaks"] = [type(t).__name__ for t in threads if t.is_alive()]
+        out["took"] = time.monotonic() - t0
+        return out
+    finally:
+        try:
+            srv.shutdown()
+        except Exception:
+            pass
+
+
 def tls_scenario(kind):
     """pynetdicom accepts TLS connections; a raw TCP peer connects and then stalls before / part-way through the TLS
     handshake (which `AssociationServer.get_request` performs on the server's accept thread).
@@ -422,6 +523,8 @@ def _job(args):
                 box["r"] = acceptor_scenario(*args[1:])
             elif args[0] == "after":
                 box["r"] = after_op_scenario(*args[1:])
+            elif args[0] == "side":
+                box["r"] = side_request_scenario(*args[1:])
             else:
                 box["r"] = requestor_scenario(*args[1:])
         except Exception:
@@ -457,6 +560,8 @@ def scenarios(ctx):
     sc += [("req", "echo-partial", c) for c in ((1, 6, 7, 20) if ctx.quick else range(1, len(B["echo_rq"]), 2))]
     # the operation completes, the user does nothing more, the peer stays silent: the idle timeout must end it
     sc += [("after", "echo", True)] + [("after", op, ex) for op in ("find", "get", "move") for ex in (True, False)]
+    # the peer has a request of another kind served (in a thread of its own) in the middle of its own C-GET
+    sc += [("side", "get", 1), ("side", "get", 2)]
     return sc
 
 
@@ -541,6 +646,11 @@ def run(ctx):
         if r.get("hang"):
             ctx.fail(f"blocked-past-timeouts:{job[0]}:{job[1]}" + (":dribble" if dribble else ""), f"{job}: pynetdicom call did not return / threads never ended", case)
             continue
+        if job[0] == "side" and (r.get("statuses", [None])[-1] != 0x0000 or r.get("stores") != [1, 1, 1] or r.get("reports") != 1):
+            ctx.fail("operation-stalled-by-a-request-served-meanwhile",
+                     f"{job}: N-EVENT-REPORT request served during sub-operation {job[2]} of a 3-instance C-GET: statuses "
+                     f"{r.get('statuses')}, sub-operations answered {r.get('stores')}, reports served {r.get('reports')}, "
+                     f"threads still alive afterwards {r.get('leaks')}", case)
         if r.get("leaks"):
             ctx.fail(
                 f"blocked-past-timeouts:{job[0]}:{job[1]}" + (":dribble" if dribble else ""),
